@@ -387,8 +387,8 @@ def run(run):
 
     def r5():
         flags = ["", "+", "-", "#", "0"]
-        widths = ["", "5", "12"]
-        precs = ["", ".", ".3"]
+        widths = ["", "5", "12", "05", "010"]  # a width may start with 0 after an explicit flag (e.g. %+05d)
+        precs = ["", ".", ".3", ".10", ".0"]
         n = 0
         bad = {}
         for conv in CONVS:
